@@ -67,6 +67,11 @@ impl Report {
         }
     }
     pub fn note(&mut self, s: &str) {
+        // evidence files must stay small: a worker keeps its first 60 distinct notes and counts the rest
+        if self.notes.len() >= 60 {
+            self.inc("notes_dropped");
+            return;
+        }
         self.notes.insert(s.to_string());
     }
     pub fn n_violations(&self) -> usize {
